@@ -100,6 +100,14 @@ def run(ctx):
     if fm is not None:
         rule_taken_reaches(dep(ctx, "C16", "C05"), "C05.T", fm, "vectorise_mmap",
                            lambda n: n.get("k") == "mcall" and cname(n) == "ktio::mmap::MMWriter::write_at", "row write")
+    # "no sentinel or placeholder value is ever written as if it were data": a CGR point exists only for a byte of the
+    # corner table (the marker moves to the midpoint with THAT byte's corner); a byte outside the table is refused, not
+    # given a made-up corner
+    from . import c11
+    d11_ = dep(ctx, "C16", "C11")
+    for path_, kind_ in c11.SIBLINGS:
+        if ctx.view(path_) is not None:
+            c11.midpoint_rule(d11_, "C11.M", "C11.E", path_, kind_)
 
 
 def success_value(t):
